@@ -21,6 +21,9 @@ func Gen(prop string, r *sim.Rand, tier string) sim.Script {
 	if long {
 		return genLong(prop, r)
 	}
+	if r.Chance(1, 250) {
+		return genBigBlock(prop, r)
+	}
 	key := func() string { return fmt.Sprintf("k%d", r.Intn(nKeys)) }
 	nb, nt, nv := 0, 0, 0
 	var openBlocks []int // uncommitted
@@ -231,5 +234,38 @@ func GenSched(r *sim.Rand, tier string) sim.Script {
 	}
 	s.Strategy = []string{"rw", "rw", "pct", "rub"}[r.Intn(4)]
 	s.SchedSeed = r.U64()
+	return s
+}
+
+// genBigBlock: one block writes a very large number of keys (sizes on a log scale up to beyond the
+// key table's capacity) on top of a parent that wrote some of them; late writes and removals in the
+// big block must still win over the parent's versions.
+func genBigBlock(prop string, r *sim.Rand) sim.Script {
+	s := &Script{Prop: prop, Values: "bytes"}
+	m := []int{300, 3000, 12000, 40000, 110000}[r.Intn(5)]
+	nv := 0
+	val := func() string { nv++; return fmt.Sprintf("v%d", nv) }
+	s.Ops = append(s.Ops, Op{K: "blk", P: -1})
+	for i := 0; i < 4; i++ {
+		s.Ops = append(s.Ops, Op{K: "bset", B: 0, Y: fmt.Sprintf("k%d", i), V: val()})
+	}
+	s.Ops = append(s.Ops, Op{K: "bcommit", B: 0}, Op{K: "blk", P: 0}, Op{K: "txn", B: 1})
+	for i := 0; i < m; i++ {
+		if r.Chance(1, 2) {
+			s.Ops = append(s.Ops, Op{K: "bset", B: 1, Y: fmt.Sprintf("f%d", i), V: "f"})
+		} else {
+			s.Ops = append(s.Ops, Op{K: "tset", T: 0, Y: fmt.Sprintf("f%d", i), V: "f"})
+		}
+	}
+	// late first-touch writes / removals of the parent's keys in the big block
+	s.Ops = append(s.Ops, Op{K: "bset", B: 1, Y: "k0", V: val()}, Op{K: "tset", T: 0, Y: "k1", V: val()}, Op{K: "trem", T: 0, Y: "k2"}, Op{K: "tcommit", T: 0})
+	s.Ops = append(s.Ops, Op{K: "txn", B: 1})
+	for i := 0; i < 4; i++ {
+		s.Ops = append(s.Ops, Op{K: "bget", B: 1, Y: fmt.Sprintf("k%d", i)}, Op{K: "tget", T: 1, Y: fmt.Sprintf("k%d", i)})
+	}
+	s.Ops = append(s.Ops, Op{K: "bcommit", B: 1}, Op{K: "blk", P: 1})
+	for i := 0; i < 4; i++ {
+		s.Ops = append(s.Ops, Op{K: "sget", B: 1, Y: fmt.Sprintf("k%d", i)}, Op{K: "qget", B: 1, Y: fmt.Sprintf("k%d", i)}, Op{K: "bget", B: 2, Y: fmt.Sprintf("k%d", i)})
+	}
 	return s
 }
